@@ -6,6 +6,18 @@ import graphs
 from e2e import canon, concat_parts, try_, _short
 
 
+def _stable_sort(part, by, **kwargs):
+    kwargs.setdefault("kind", "stable")
+    return part.sort_values(by, **kwargs)
+
+
+def _add_n(part, opts=None):
+    out = part.copy()
+    for c in opts["cols"]:
+        out[c] = out[c] + opts["n"]
+    return out
+
+
 def workloads(run, rt, quick):
     import pandas as pd
     import gen
@@ -49,6 +61,10 @@ def workloads(run, rt, quick):
         "map_partitions udf": df.map_partitions(lambda p: p.assign(n=len(p))),
         "cumsum + shift": df.cumsum() + df.shift(1).fillna(0),
         "sort_values": df.sort_values("c"),
+        "sort_values ignore_index": df.sort_values("c", ignore_index=True),
+        "sort_values custom sort_function": df.sort_values("c", sort_function=_stable_sort, sort_function_kwargs={"kind": "stable"}),
+        "sort_values custom sort_function ignore_index": df.sort_values("c", sort_function=_stable_sort, ignore_index=True),
+        "map_partitions with shared kwargs": df.map_partitions(_add_n, opts={"n": 2, "cols": ["a"]}),
         "drop_duplicates": df.drop_duplicates(subset=["b"]),
         "fused shared": (lambda t: (t * 2) - (t + 3))(df + 1),
         "rename + index name": df.rename_axis(index="i").reset_index(),
